@@ -1,14 +1,7 @@
 (* C16 — exhaustive float64 evaluation around the default proportion (closed
-   boolean terms only; a few seconds of vm_compute).
-
-   Full statement, for the record: for ALL 0 <= c <= nc <= 400,
-       i_gt_pp (i_mean c nc) p02 = (nc <? 5 * c).
-   It was checked by the same method over all 80 601 pairs (95 s of vm_compute) but is
-   not part of the build: coqchk re-evaluates the term without the VM and needs
-   tens of minutes for it.  What is kept is the band of counts up to five channels
-   either side of nc/5 — the counts "one below / at / above proportion*nc" of the
-   property and more.  Missing for the full statement: monotonicity of
-   c |-> fl(c/nc) (round_le on Bdiv_correct), which would extend the band to all c. *)
+   boolean terms only; a few seconds of vm_compute): for every nc <= 400 the counts up
+   to five channels either side of nc/5.  Ulp.v extends it to every count by
+   monotonicity of round-to-nearest (pub_default_prop_full). *)
 From Coq Require Import ZArith List Bool Lia.
 From IBL.C16 Require Import Model.
 Import ListNotations.
